@@ -262,7 +262,7 @@ func traceStage(id string, seed int64, num, ln int) func(ev *Evidence) ([]string
 			}
 		}
 		ev.Coverage["trace_validation"] = map[string]interface{}{
-			"rule":                "random histories of the real library (12 keys, random cache / flush threshold / palette / initial version / index mode; calls: Set, Set(nil), Remove, SaveVersion, SaveChangeSet, Rollback, close+reopen, LoadVersion, LoadVersionForOverwriting, DeleteVersionsTo within the documented contract; probes: reads and exports of retained and missing versions, range iteration in both directions, GetWithIndex, GetByIndex incl. ranks outside the tree) recorded with results and observations (version range, loaded and next version, every key's value, height, size, post-order export of every committed version with node versions) and validated line by line by TLC against IavlTrace.tla = the actions of Iavl.tla",
+			"rule":                "random histories of the real library (12 keys, random cache / flush threshold / palette / initial version / index mode; calls: Set, Set(nil), Remove, SaveVersion, SaveChangeSet, Rollback, close+reopen, export+import into an empty store (plain and compressed), LoadVersion, LoadVersionForOverwriting, DeleteVersionsTo within the documented contract; probes: reads and exports of retained and missing versions, range iteration in both directions, GetWithIndex, GetByIndex incl. ranks outside the tree) recorded with results and observations (version range, loaded and next version, every key's value, height, size, post-order export of every committed version with node versions) and validated line by line by TLC against IavlTrace.tla = the actions of Iavl.tla",
 			"traces":              num,
 			"events":              events,
 			"traces_accepted":     accepted,
